@@ -77,6 +77,7 @@ func checkC03(p *Program, r *Report) {
 		return
 	}
 	c03NoTruncation(p, r, g)
+	c03StringLoops(p, r)
 	// the expression nonterminal: X in the rule  _ -> X '+' X
 	plus := g.TokByName("'+'")
 	E := 0
@@ -442,6 +443,27 @@ func scannerTokens(p *Program) ([]scanTok, error) {
 		return nil, fmt.Errorf("Scanner.Scan not found")
 	}
 	info := pk.TypesInfo
+	// the token code and the token text are the first two (named) results of Scan, whatever they are called
+	resultObjs := map[types.Object]string{}
+	if scan.Type.Results != nil {
+		k := 0
+		for _, f := range scan.Type.Results.List {
+			for _, nm := range f.Names {
+				if k == 0 {
+					resultObjs[info.ObjectOf(nm)] = "tok"
+				} else if k == 1 {
+					resultObjs[info.ObjectOf(nm)] = "lit"
+				}
+				k++
+			}
+		}
+	}
+	resultRole := func(id *ast.Ident) string {
+		if o := info.ObjectOf(id); o != nil {
+			return resultObjs[o]
+		}
+		return ""
+	}
 	var out []scanTok
 	charOf := func(e ast.Expr) (string, bool) {
 		tv := info.Types[e]
@@ -498,7 +520,7 @@ func scannerTokens(p *Program) ([]scanTok, error) {
 			case *ast.AssignStmt:
 				if len(x.Lhs) == 1 && len(x.Rhs) == 1 {
 					if id, ok := x.Lhs[0].(*ast.Ident); ok {
-						switch id.Name {
+						switch resultRole(id) {
 						case "tok":
 							if rid, ok := x.Rhs[0].(*ast.Ident); ok {
 								tokName = rid.Name
@@ -586,7 +608,7 @@ func scannerTokens(p *Program) ([]scanTok, error) {
 		if !ok {
 			return true
 		}
-		if id, ok := sw.Tag.(*ast.Ident); ok && id.Name == "ch" {
+		if id, ok := sw.Tag.(*ast.Ident); ok && isRuneVar(info, id) {
 			for _, cs := range sw.Body.List {
 				cc := cs.(*ast.CaseClause)
 				for _, e := range cc.List {
@@ -1273,4 +1295,172 @@ func c03NoTruncation(p *Program, r *Report, g *LALR) {
 		visit(cc.Body, nil)
 	}
 	r.Floor("C03.R7", nLits, 2)
+}
+
+// c03StringLoops (R8): the scanner functions that build the text of a string literal character by character (a []rune grown by
+// append in a loop and returned as a string) add exactly one character per turn of the loop: a turn that adds none drops a
+// character of the literal, a turn that adds two duplicates one (an escape that falls through to the plain-character append).
+func c03StringLoops(p *Program, r *Report) {
+	sp := p.SSAPkg("parser")
+	if sp == nil {
+		return
+	}
+	n := 0
+	for _, fn := range SrcFuncs(sp) {
+		res := fn.Signature.Results()
+		if res.Len() != 2 || len(fn.Blocks) == 0 {
+			continue
+		}
+		if bt, ok := res.At(0).Type().(*types.Basic); !ok || bt.Kind() != types.String {
+			continue
+		}
+		// the functions that scan a quoted literal are the ones that are told the closing quote
+		quoted := false
+		for _, par := range fn.Params {
+			if bt, ok := par.Type().(*types.Basic); ok && bt.Kind() == types.Int32 {
+				quoted = true
+			}
+		}
+		if !quoted {
+			continue
+		}
+		perFn := 0
+		// accumulators: []rune phis that reach a string conversion which is returned
+		acc := map[ssa.Value]bool{}
+		for _, b := range fn.Blocks {
+			ret, ok := b.Instrs[len(b.Instrs)-1].(*ssa.Return)
+			if !ok || len(ret.Results) == 0 {
+				continue
+			}
+			if cv, ok := ret.Results[0].(*ssa.Convert); ok {
+				if _, isSlice := cv.X.Type().Underlying().(*types.Slice); isSlice {
+					acc[cv.X] = true
+				}
+			}
+		}
+		for changed := true; changed; {
+			changed = false
+			for v := range acc {
+				var ops []ssa.Value
+				switch x := v.(type) {
+				case *ssa.Phi:
+					ops = x.Edges
+				case *ssa.Call:
+					if bi, ok := x.Call.Value.(*ssa.Builtin); ok && bi.Name() == "append" {
+						ops = x.Call.Args[:1]
+					}
+				}
+				for _, o := range ops {
+					if !acc[o] {
+						acc[o] = true
+						changed = true
+					}
+				}
+			}
+		}
+		hasAppend := false
+		for v := range acc {
+			if c, ok := v.(*ssa.Call); ok {
+				if bi, ok := c.Call.Value.(*ssa.Builtin); ok && bi.Name() == "append" {
+					hasAppend = true
+				}
+			}
+		}
+		if !hasAppend {
+			n++
+			r.Fail("C03.R8", funcName(fn)+"|one character per turn #1", p.Pos(fn.Pos()), "the text this function returns for a quoted literal is not grown by the characters it scans (no append reaches the returned string): the literal's content is dropped")
+			continue
+		}
+		appends := func(b *ssa.BasicBlock) int {
+			k := 0
+			for _, in := range b.Instrs {
+				if c, ok := in.(*ssa.Call); ok && acc[c] {
+					if bi, ok := c.Call.Value.(*ssa.Builtin); ok && bi.Name() == "append" {
+						k++
+					}
+				}
+			}
+			return k
+		}
+		for _, l := range loopsOf(fn) {
+			// only loops that carry an accumulator
+			carries := false
+			for _, in := range l.Header.Instrs {
+				if ph, ok := in.(*ssa.Phi); ok && acc[ph] {
+					carries = true
+				}
+			}
+			if !carries {
+				continue
+			}
+			// min / max number of appends on a path from the header back to the header (inner cycles are not expected)
+			type mm struct{ lo, hi int }
+			memo := map[*ssa.BasicBlock]*mm{}
+			onStack := map[*ssa.BasicBlock]bool{}
+			cyclic := false
+			var walk func(b *ssa.BasicBlock) *mm // appends from the start of b to the next arrival at the header
+			walk = func(b *ssa.BasicBlock) *mm {
+				if m, ok := memo[b]; ok {
+					return m
+				}
+				if onStack[b] {
+					cyclic = true
+					return nil
+				}
+				onStack[b] = true
+				var res *mm
+				for _, s := range b.Succs {
+					var sub *mm
+					if s == l.Header {
+						sub = &mm{0, 0}
+					} else if l.Body[s] {
+						sub = walk(s)
+					}
+					if sub == nil {
+						continue
+					}
+					if res == nil {
+						res = &mm{sub.lo, sub.hi}
+					} else {
+						if sub.lo < res.lo {
+							res.lo = sub.lo
+						}
+						if sub.hi > res.hi {
+							res.hi = sub.hi
+						}
+					}
+				}
+				onStack[b] = false
+				if res != nil {
+					k := appends(b)
+					res.lo += k
+					res.hi += k
+				}
+				memo[b] = res
+				return res
+			}
+			m := walk(l.Header)
+			n++
+			perFn++
+			inst := fmt.Sprintf("%s|one character per turn #%d", funcName(fn), perFn)
+			switch {
+			case cyclic || m == nil:
+				r.Undecided("C03.R8", inst, p.Pos(fn.Pos()), "the loop has inner cycles: turns cannot be enumerated")
+			default:
+				r.Check(m.lo == 1 && m.hi == 1, "C03.R8", inst, p.Pos(fn.Pos()), "every way round the loop appends exactly one character",
+					fmt.Sprintf("a turn of the loop can append %d..%d characters to the literal's text: the string denoted is not the one written (a character dropped, or an escape followed by a copy of its letter)", m.lo, m.hi))
+			}
+		}
+	}
+	r.Floor("C03.R8", n, 2)
+}
+
+// isRuneVar: id is a local variable of type rune (the scanner's current character, whatever it is called).
+func isRuneVar(info *types.Info, id *ast.Ident) bool {
+	v, ok := info.ObjectOf(id).(*types.Var)
+	if !ok {
+		return false
+	}
+	bt, ok := v.Type().Underlying().(*types.Basic)
+	return ok && bt.Kind() == types.Int32
 }
